@@ -86,13 +86,16 @@ func (s *c18Shadow) on(ev vfHookEv) {
 }
 
 type c18Env struct {
-	maxTx uint32 // server option WithMaxTxPacket / WithRSMaxTxPacket (0 = default)
-	kind  vfKind
-	dir   string
-	tmpl  string
-	store *vfStore
-	files []string
-	sizes []int
+	// option values shared by every server of the unit (the accept-loop idiom: one option list, many connections)
+	allocOpt   ServerOption
+	allocOptRS RequestServerOption
+	maxTx      uint32 // server option WithMaxTxPacket / WithRSMaxTxPacket (0 = default)
+	kind       vfKind
+	dir        string
+	tmpl       string
+	store      *vfStore
+	files      []string
+	sizes      []int
 }
 
 func c18Fill(e *c18Env, u *vfUnit) {
@@ -228,7 +231,7 @@ func c18Program(r *vfRand, e *c18Env) []c18Phase {
 
 // c18Serve runs the program against a fresh server and returns the concatenated response bodies per phase.
 func c18Serve(u *vfUnit, e *c18Env, alloc bool, prog []c18Phase, buf int, shadow *c18Shadow, label string) ([][]byte, bool) {
-	cfg := vfSrvCfg{Kind: e.kind, Alloc: alloc, MaxTx: e.maxTx}
+	cfg := vfSrvCfg{Kind: e.kind, Alloc: alloc, MaxTx: e.maxTx, AllocOpt: e.allocOpt, AllocOptRS: e.allocOptRS}
 	if e.kind == vfRS {
 		cfg.H = e.store.Handlers(vfHandlerOpt{OpenFile: true, CmdAll: true, ListAll: true})
 	}
@@ -308,6 +311,10 @@ func c18Run(u *vfUnit) {
 	r := u.Rng
 	kind := vfKind(u.Index % 2)
 	e := &c18Env{kind: kind}
+	if (u.Index/2)%2 == 1 {
+		// half of the units: ONE option value for all servers of the unit
+		e.allocOpt, e.allocOptRS = WithAllocator(), WithRSAllocator()
+	}
 	if kind == vfOS {
 		e.dir = filepath.Join(u.TempDir(), "tree")
 	}
@@ -351,7 +358,7 @@ func c18Run(u *vfUnit) {
 		var bgDone chan string
 		if pi%2 == 1 {
 			stopBg = make(chan struct{})
-			bgDone = c18Background(u, kind, stopBg)
+			bgDone = c18Background(u, e, stopBg)
 			u.Count("programs_with_concurrent_session", 1)
 		}
 		got, ok := c18Serve(u, e, true, prog, buf, shadow, label+"/alloc=on")
@@ -392,9 +399,10 @@ func c18Run(u *vfUnit) {
 
 // c18Background serves files with known contents from a second server instance (allocator on) and keeps
 // sending bursts of pipelined READs until stop is closed; every DATA reply must be the file's bytes.
-func c18Background(u *vfUnit, kind vfKind, stop chan struct{}) chan string {
+func c18Background(u *vfUnit, e *c18Env, stop chan struct{}) chan string {
+	kind := e.kind
 	done := make(chan string, 1)
-	cfg := vfSrvCfg{Kind: kind, Alloc: true}
+	cfg := vfSrvCfg{Kind: kind, Alloc: true, AllocOpt: e.allocOpt, AllocOptRS: e.allocOptRS}
 	root := "/"
 	var dir string
 	sizes := []int{3000, 40000, 9000}
